@@ -118,6 +118,28 @@ func genF4(g *fw.GenCtx, em *emitter) {
 	add("restart-in-functional-sub", map[string]string{"_decl": "sub rs BOOL { restart; return true; }\n", "recv": "if (rs()) { log \"x\"; }"}, "miss")
 	add("error-in-functional-sub", map[string]string{"_decl": "sub rs BOOL { error 601; return true; }\n", "recv": "if (rs()) { log \"x\"; }"}, "miss")
 	em.mark()
+	// every form inside a functional subroutine (directly, and nested in if / block / switch), called from every scope
+	for _, s := range lcScopes {
+		for _, f := range forms {
+			for _, nest := range []struct{ name, open, close string }{
+				{"direct", "", ""}, {"in-if", "if (req.url) {", "}"}, {"in-block", "{", "}"}, {"in-switch", "switch (\"a\") { case \"a\":", "break; }"}, {"in-else", "if (!req.url) { log \"n\"; } else {", "}"},
+			} {
+				for _, typ := range []string{"BOOL", "STRING"} {
+					ret := "true"
+					use := "if (fs()) { log \"x\"; }"
+					if typ == "STRING" {
+						ret, use = "\"v\"", "log \"r=\" fs();"
+					}
+					acts := map[string]string{"_decl": fmt.Sprintf("sub fs %s {\n%s %s %s\nreturn %s;\n}\n", typ, nest.open, f.stmt, nest.close, ret), s: use}
+					if s == "error" {
+						acts["recv"] = "error 601;"
+					}
+					add(fmt.Sprintf("functional-sub/%s/%s", s, f.name), acts, "hit")
+				}
+			}
+		}
+		em.mark()
+	}
 	// programs that declare only some of the lifecycle subroutines x request methods (a purge request takes
 	// its own path around vcl_recv): none, each one alone, all but each one, and seed-chosen subsets
 	{
